@@ -98,6 +98,9 @@ def gen_case(rng, i, tier, pool):
     tr = dict(kind=treekind)
     if treekind == "unrooted":
         tr["bl"] = [math.exp(rng.uniform(-5, 0.5)) for _ in range(2 * n - 3)]
+        if rng.random() < 0.25:      # some very short branches (1e-7 .. 1e-5; see DESIGN for what happens below 1e-8)
+            for j in rng.sample(range(2 * n - 3), rng.randint(1, max(1, n - 2))):
+                tr["bl"][j] = 10 ** rng.uniform(-7, -5)
     else:
         dates = [0.0] * n if rng.random() < 0.5 else [float(rng.randint(0, 3)) for _ in range(n)]
         if min(dates) != 0.0:
@@ -279,6 +282,97 @@ def newick_with_lengths(tree, names, bl, frac, taxa_order):
     return "(" + rec(a, frac * e if ia < ib else (1 - frac) * e) + "," + rec(b, (1 - frac) * e if ia < ib else frac * e) + ");"
 
 
+def ref_site_model(sm):
+    """category rates and proportions from the definition (median-quantile discretised Weibull, optional invariant
+    category, optional relative rate mu), written independently of the implementation -> (rates, props)"""
+    mu = sm.get("mu", 1.0)
+    pinv = sm.get("pinv")
+    if sm["type"].startswith("weibull"):
+        K, shape = sm["K"], sm["shape"]
+        q = [(-math.log(1.0 - (2 * k + 1) / (2.0 * K))) ** (1.0 / shape) for k in range(K)]
+        if pinv is None:
+            mean = math.fsum(q) / K
+            return [mu * x / mean for x in q], [1.0 / K] * K
+        mean = math.fsum(q) * (1.0 - pinv) / K
+        return [0.0] + [mu * x / mean for x in q], [pinv] + [(1.0 - pinv) / K] * K
+    if sm["type"] == "invariant":
+        return [0.0, mu / (1.0 - pinv)], [pinv, 1.0 - pinv]
+    return [mu], [1.0]
+
+
+def ref_rate_matrix(sp):
+    """normalised nucleotide rate matrix from the definition (states A C G T)"""
+    if sp["type"] == "JC69":
+        pi, ex = [0.25] * 4, {}
+    else:
+        pi = sp["freqs"]
+        if sp["type"] == "HKY":
+            k = sp["kappa"]
+            ex = {(0, 1): 1.0, (0, 2): k, (0, 3): 1.0, (1, 2): 1.0, (1, 3): k, (2, 3): 1.0}
+        else:
+            r = sp["rates"]
+            ex = {(0, 1): r[0], (0, 2): r[1], (0, 3): r[2], (1, 2): r[3], (1, 3): r[4], (2, 3): r[5]}
+    Q = [[0.0] * 4 for _ in range(4)]
+    for i in range(4):
+        for j in range(4):
+            if i != j:
+                Q[i][j] = ex.get((min(i, j), max(i, j)), 1.0) * pi[j]
+        Q[i][i] = -math.fsum(Q[i])
+    norm = -math.fsum(pi[i] * Q[i][i] for i in range(4))
+    return [[v / norm for v in row] for row in Q]
+
+
+def ref_expm(Q, t):
+    """exp(Q t) by scaling and squaring of a Taylor series, every entry to relative round-off (the off-diagonal entries
+    of a tiny t included: no subtraction of nearly equal numbers happens for them)"""
+    n = len(Q)
+    s = 0
+    nrm = max(abs(Q[i][i]) for i in range(n)) * t
+    while nrm / (2 ** s) > 0.25:
+        s += 1
+    A = [[Q[i][j] * t / (2 ** s) for j in range(n)] for i in range(n)]
+    I = [[1.0 if i == j else 0.0 for j in range(n)] for i in range(n)]
+    mul = lambda X, Y: [[math.fsum(X[i][k] * Y[k][j] for k in range(n)) for j in range(n)] for i in range(n)]
+    # E = exp(A) - I, accumulated without the identity so that small off-diagonal entries keep their relative accuracy
+    term, E = [row[:] for row in A], [row[:] for row in A]
+    for m in range(2, 26):
+        term = [[v / m for v in row] for row in mul(term, A)]
+        E = [[E[i][j] + term[i][j] for j in range(n)] for i in range(n)]
+    for _ in range(s):      # (I + E)^2 - I = 2E + E^2
+        E2 = mul(E, E)
+        E = [[2 * E[i][j] + E2[i][j] for j in range(n)] for i in range(n)]
+    return [[(1.0 if i == j else 0.0) + E[i][j] for j in range(n)] for i in range(n)]
+
+
+def oracle_tables_check(case, rates, props, lengths, mats):
+    """The tables the model is fed with are read from the implementation's public API (that they are right is C04 / C05);
+    they are nevertheless compared with the definitions here: category rates / proportions of the site model in closed
+    form (relative 1e-9), and every entry of every transition matrix with an independent exp(Q t r_k), to relative 1e-9
+    plus an absolute floor set ten times above the round-off the unchanged code shows (the eigendecomposition route
+    has absolute, not relative, accuracy on tiny entries: measured <= 2.2e-14; the Jukes-Cantor closed form <= 1e-15)."""
+    sm, sp = case["site"], case["subst"]
+    wr, wp = ref_site_model(sm)
+    close = lambda a, b, rt: abs(a - b) <= rt * max(abs(a), abs(b)) + 1e-300
+    if len(wr) != len(rates) or not all(close(a, b, 1e-9) for a, b in zip(rates, wr)) or \
+            not all(close(a, b, 1e-9) for a, b in zip(props, wp)):
+        raise ValueError(f"site model: rates {rates} / proportions {props} but the definition gives {wr} / {wp}")
+    if sp["type"] in ("LG", "WAG"):
+        return
+    Q = ref_rate_matrix(sp)
+    floor = 1e-14 if sp["type"] == "JC69" else 2e-13
+    for k, rk in enumerate(rates):
+        for j, t in enumerate(lengths[:len(mats[k])]):
+            if t * rk <= 0.0:
+                continue
+            R = ref_expm(Q, t * rk)
+            M = mats[k][j]
+            for a in range(4):
+                for b in range(4):
+                    if abs(M[a][b] - R[a][b]) > 1e-9 * abs(R[a][b]) + floor:
+                        raise ValueError(f"transition probabilities of branch {j} (length x rate = {t * rk!r}): entry "
+                                         f"({a},{b}) is {M[a][b]!r} but exp(Q t) has {R[a][b]!r}")
+
+
 def run_impl(case):
     torch = impl.load()
     like = build(case)
@@ -309,6 +403,7 @@ def run_impl(case):
             else:
                 per_node.append([[1.0 if a == b else 0.0 for b in range(S)] for a in range(S)])
         mats.append(per_node)
+    oracle_tables_check(case, rates, props, lengths, mats)
     return dict(value=value, freqs=freqs, props=props, mats=mats, rates=rates, lengths=lengths)
 
 
